@@ -1,9 +1,9 @@
-CONSTANTS IB = 1  PB = 2  NF = 10  Leafs = {20}  Sizes = {0, 1, 4, 5}  FailPoints = {0, 1, 3}  MaxOps = 3  Bug = ""  Emit = TRUE
-  OpKinds = {"map", "unmap", "maptemp", "mapregion", "identity", "switch"}
+CONSTANTS IB = 1  PB = 2  NF = 10  Leafs = {20, 24}  Sizes = {0, 1, 4, 5}  FailPoints = {0}  MaxOps = 3  Bug = ""  Emit = TRUE
+  OpKinds = {"map", "unmap", "switch"}
   PokeBits = {5, 6, 63}
   Props = {"C04"}
 CONSTANT U <- MCU1
-CONSTANT OpPages <- MCOpPages1
+CONSTANT OpPages <- MCOpPagesR
 CONSTANT IdPages <- MCIdPages1
 CONSTANT FlagSets <- MCFlagsA2
 INIT Init
